@@ -8,7 +8,7 @@ ROOT = os.path.dirname(os.path.dirname(os.path.abspath(__file__)))
 
 CLAIMS = {
     'C01': dict(cat='proof',
-                text='Function-level panic-freedom contracts for the panic sites the property names (get_indent and its callers in CssBuf, long_indent, ValueRange::new/next, Color::cmp/cmp_chan, Number::into_integer, UnitSet exponent arithmetic, index_of, CssBuf::end_block, the framing tail of into_buffer): every counted obligation is discharged for ALL arguments of the real function by Kani/CBMC or, unbounded, by Verus (long_indent for every length, CssBuf block bookkeeping for every buffer, into_buffer tail for every buffer); not a proof about whole compilations.',
+                text='Function-level panic-freedom contracts for the panic sites the property names (get_indent and its callers in CssBuf, long_indent, ValueRange::new/next, Color::cmp/cmp_chan, Number::into_integer, UnitSet exponent arithmetic, index_of, CssBuf::end_block, the framing tail of into_buffer, the digit accumulation of string escapes in CssString::unquote): every counted obligation is discharged for ALL arguments of the real function by Kani/CBMC or, unbounded, by Verus (long_indent for every length, CssBuf block bookkeeping for every buffer, into_buffer tail for every buffer); not a proof about whole compilations.',
                 note='Covers only the listed leaf functions; parser, evaluator recursion depth, resolve_ref, Display/fmt and error rendering (SourcePos::show) are unverified. Bounded stand-ins (CssBuf buffers <= 4 bytes in the Kani twin, UnitSet <= 2 entries) are listed in evidence and not counted as proved.',
                 tech='Kani function contracts / proof harnesses on the real crate + Verus on extracted text',
                 ref='DESIGN.md §5 C01, §11'),
@@ -49,7 +49,7 @@ CLAIMS = {
                 ref='DESIGN.md §11'),
     'C36': dict(cat='proof',
                 text='Which loud comments reach the output: the Item::Comment arm of output::transform::handle_item, extracted from /repo each run with the scope format and the destination replaced by probes — expanded style emits every loud comment exactly once, compressed style keeps exactly those starting with `/*!` (loop-free, both styles, both kinds: complete).',
-                note='That silent comments never reach the evaluator (parser), the evaluation of interpolation inside comments, their order relative to other items and Comment::write (re-indentation) are not covered.',
+                note='That silent comments never reach the evaluator (parser), the evaluation of interpolation inside comments and their order relative to other items are not covered. Comment::write is run on one concrete comment in expanded style (bounded); its compressed-style harnesses exceed 15 minutes (str::lines / str::replace): thorough-tier attempts, never counted.',
                 tech='Kani proof harnesses on a K-snippet (range of handle_item extracted each run)',
                 ref='DESIGN.md §11'),
     'C18': dict(cat='other',
